@@ -1,17 +1,17 @@
-(* The three entry points of `Parser` (parser/mod.rs: g_parse, parse_selection_set, parse_type) including
-   SyntaxTreeBuilder::finish_* (rowan's GreenNodeBuilder::p_finish) and SyntaxTree::<Type>::g_ty().
+(* The three entry points of `Parser` (parser/mod.rs: parse, parse_selection_set, parse_type) including
+   SyntaxTreeBuilder::finish_* (rowan's GreenNodeBuilder::finish) and SyntaxTree::<Type>::ty().
    They are functions of the ITEM LIST the parser's own lexer yields (Lex/: lex_all s, or lex_limited n s
-   p_when a token limit is set) and of the recursion limit.  `dbg` = debug_assertions. *)
+   when a token limit is set) and of the recursion limit.  `dbg` = debug_assertions. *)
 From ApolloVerif Require Import Base.Chars Lex.Item Parse.Outcome Parse.Builder Parse.Limits Parse.Monad
   Parse.Grammar.
 
-(* what a SyntaxTree holds: green ptree, errors (in order), recursion ptracker, token tracker's high mark *)
+(* what a SyntaxTree holds: green tree, errors (in order), recursion tracker, token tracker's high mark *)
 Record presult := {
   pr_tree : ptree;
   pr_errors : list perror;
   pr_rec : ptracker;
   pr_tokens_high : N;
-  pr_dropped : list ptoken       (* GHOST: tokens popped and never given to the pbuilder *)
+  pr_dropped : list ptoken       (* GHOST: tokens popped and never given to the builder *)
 }.
 
 (* the fuel the entries run with: a bound on nesting depth and on each loop's iterations; every loop
@@ -35,7 +35,7 @@ Definition p_run_with (fuel : nat) (g : nat -> PM unit) (dbg : bool) (rl : N) (i
   : poutcome presult :=
   p_finish (g fuel (p_init_state dbg rl items)).
 
-(* Parser::g_parse *)
+(* Parser::parse *)
 Definition parse_document_fuel (fuel : nat) := p_run_with fuel g_document.
 Definition parse_document_items (dbg : bool) (recursion_limit : N) (items : list item) : poutcome presult :=
   parse_document_fuel (p_fuel_for items) dbg recursion_limit items.
@@ -46,15 +46,15 @@ Definition parse_selection_set_items (dbg : bool) (recursion_limit : N) (items :
   : poutcome presult :=
   parse_selection_set_fuel (p_fuel_for items) dbg recursion_limit items.
 
-(* Parser::parse_type: { let _root = p_start_node(SK_TYPE); g_ty::g_ty; p_trailing_tokens_are_errors } *)
+(* Parser::parse_type: { let _root = start_node(TYPE); ty::ty; trailing_tokens_are_errors } *)
 Definition g_type_entry (fuel : nat) : PM unit :=
   p_node SK_TYPE (g_ty fuel ;; p_trailing_tokens_are_errors fuel).
 Definition parse_type_fuel (fuel : nat) := p_run_with fuel g_type_entry.
 Definition parse_type_items (dbg : bool) (recursion_limit : N) (items : list item) : poutcome presult :=
   parse_type_fuel (p_fuel_for items) dbg recursion_limit items.
 
-(* SyntaxTree::<Type>::g_ty(): root.children().find_map(cst::Type::cast), else the root itself
-   (as a NamedType).  cst::Type::can_cast: SK_NAMED_TYPE | SK_LIST_TYPE | SK_NON_NULL_TYPE.  Never panics. *)
+(* SyntaxTree::<Type>::ty(): root.children().find_map(cst::Type::cast), else the root itself
+   (as a NamedType).  cst::Type::can_cast: NAMED_TYPE | LIST_TYPE | NON_NULL_TYPE.  Never panics. *)
 Definition p_is_type_node (t : ptree) : bool :=
   match t with
   | PNode SK_NAMED_TYPE _ | PNode SK_LIST_TYPE _ | PNode SK_NON_NULL_TYPE _ => true
